@@ -674,7 +674,9 @@ func c10CloseDivisions(c *Ctx, mClose *ssa.Function) {
 		n++
 		sites = append(sites, c.at(bo))
 		fs := factsAt(bo.Block())
-		fromReq := flowsFrom(bo.Y, func(v ssa.Value) bool { return strings.HasSuffix(describeVal(v), ".Requests") && !strings.Contains(describeVal(v), "(") })
+		fromReq := flowsFrom(bo.Y, func(v ssa.Value) bool {
+			return strings.HasSuffix(describeVal(v), ".Requests") && !strings.Contains(describeVal(v), "(")
+		})
 		guarded := false
 		for _, f := range fs {
 			cmp, ok := f.Cond.(*ssa.BinOp)
